@@ -89,6 +89,35 @@ func addrRoot(v ssa.Value) ssa.Value {
 // onceDoClosure: fn is the function literal passed to (*sync.Once).Do; returns the rendered receiver of Do.
 func (p *Program) onceDoClosure(fn *ssa.Function) (string, bool) {
 	if fn.Parent() == nil {
+		// method value form: once.Do(g.init)
+		for _, h := range p.allFuncs() {
+			for _, cs := range p.callsTo(h, "(*sync.Once).Do") {
+				mc, ok := p.resolve(cs.Arg(0)).(*ssa.MakeClosure)
+				if !ok || len(mc.Bindings) != 1 {
+					continue
+				}
+				bf := mc.Fn.(*ssa.Function)
+				if !strings.HasSuffix(bf.Name(), "$bound") {
+					continue
+				}
+				for _, b := range bf.Blocks {
+					for _, in := range b.Instrs {
+						if c, ok := in.(ssa.CallInstruction); ok {
+							if sc := c.Common().StaticCallee(); sc != nil && (sc == fn || sc.Origin() == fn) {
+								// the receiver bound must be the object owning the Once
+								recvOnce := p.expr(cs.Recv())
+								bound := p.expr(mc.Bindings[0])
+								if strings.HasPrefix(strings.TrimPrefix(recvOnce, "&"), bound+".") {
+									// rendered relative to the method's own receiver
+									rp := "$" + fn.Params[0].Name()
+									return "&" + rp + strings.TrimPrefix(strings.TrimPrefix(recvOnce, "&"), bound), true
+								}
+							}
+						}
+					}
+				}
+			}
+		}
 		return "", false
 	}
 	for _, cs := range p.callsTo(fn.Parent(), "(*sync.Once).Do") {
@@ -277,7 +306,7 @@ func ruleC15R3(r *Run) {
 	n, bad := 0, 0
 	for _, fn := range sortedFuncs(p, cl) {
 		name := p.fnName(fn)
-		for _, b := range fn.Blocks {
+		for _, b := range p.body(fn) {
 			for _, in := range b.Instrs {
 				var target ssa.Value
 				what := ""
@@ -335,7 +364,7 @@ func ruleC15R3(r *Run) {
 	r.positiveExample("store-through-field", "package pos\ntype gen struct{ slice []int }\nfunc (g *gen) value() []int { s := g.slice; s[0] = 1; return s }\n", func(q *Program) int {
 		c := 0
 		for _, fn := range q.FuncList {
-			for _, b := range fn.Blocks {
+			for _, b := range p.body(fn) {
 				for _, in := range b.Instrs {
 					if st, ok := in.(*ssa.Store); ok {
 						if ia, ok := st.Addr.(*ssa.IndexAddr); ok {
@@ -414,7 +443,7 @@ func ruleC15R4(r *Run) {
 		}
 		// every function referencing the global
 		for _, fn := range p.FuncList {
-			for _, b := range fn.Blocks {
+			for _, b := range p.body(fn) {
 				for _, in := range b.Instrs {
 					for _, op := range in.Operands(nil) {
 						if *op == ssa.Value(g) {
@@ -427,7 +456,7 @@ func ruleC15R4(r *Run) {
 		// go/ssa does not keep referrers for globals: scan instructions
 		for _, fn := range p.FuncList {
 			initF := isInit(fn)
-			for _, b := range fn.Blocks {
+			for _, b := range p.body(fn) {
 				for _, in := range b.Instrs {
 					uses := false
 					for _, op := range in.Operands(nil) {
